@@ -93,6 +93,18 @@ CHECKS = {
     'C39': ('schedule-exploring PBT over handle sets and drop orders; gated handlers for graceful shutdown',
             'Exploration: socket halves dropped iff the last of a generated set of handles (clones, streams, proxies, signal streams; with/without object server) is dropped; graceful_shutdown pending while handlers are gated, complete (replies written, transport closed) afterwards.',
             'Trusted: Drop of the scripted socket halves is what the peer would see as the transport closing; the harness ticker stands in for the connection\'s executor thread.', '6, 7/C39'),
+    'C31': ('history- and schedule-exploring PBT of a caching proxy against a server-consistent fake service',
+            'Exploration over interleavings of the GetAll reply with changed / invalidated signals (own and other interfaces, uncached property); cached values == fold(snapshot, later signals).',
+            'Trusted: the fake service emits only histories a real service could (snapshot reflects earlier changes). Property-change streams are exercised indirectly (cache task).', '7/C31'),
+    'C32': ('history-exploring PBT of a proxy signal stream over a fake bus (owner lookups, genuine and forged owner changes, signals from several senders)',
+            'Exploration over bus histories: yielded signals == those whose sender owned the name at receive time per the bus driver only.',
+            'Trusted: fake bus; signals from non-owners are delivered as unicasts (a real bus would not route their broadcasts to us).', '7/C32'),
+    'C36': ('model-based PBT over name request/release histories against a scripted fake bus',
+            'Exploration over histories with every reply code and genuine / forged NameAcquired / NameLost; local answers and bus calls must follow the bookkeeping model.',
+            'Trusted: fake bus sends genuine signals only where a conformant bus could.', '7/C36'),
+    'C37': ('invariant-based PBT over subscription histories with a recording fake bus',
+            'Exploration over histories of streams / clones / drops / proxies / signal streams; AddMatch never doubled, RemoveMatch never for unknown, registered set == live distinct signal rules, empty at the end.',
+            'Trusted: fake bus recording; expected rule values are built with the MatchRule parser only to compare rules as values rather than as strings.', '7/C37'),
 }
 
 NOT_YET = {}
